@@ -207,6 +207,19 @@ CHECKS = {
             "third-party libraries' own behaviour beyond the documented contracts modelled in sa/iomodel.py, byte order, remote storage, "
             "float32 precision of NIfTI sform.",
             "DESIGN.md 4/C18"),
+    "C20": (True, "E8",
+            "interprocedural gradient-flow (taint) analysis: flow-sensitive walk of every differentiable entry point with summaries over "
+            "resolved callees specialised on constant arguments, per-class table of buffers recomputed from parameters, global fixpoint",
+            "Decides the structural necessary condition of the property for ~350 entry points (every public function of core.flow / "
+            "bspline / affine / _kornia / linalg / pointset / losses.functional and the sampling, derivative and filtering functions of "
+            "core.image; forward/tensor/disp/points/update/... of every transformation, transformer, sampler and loss module; Grid's "
+            "coordinate API with rounding off; FlowFields/ImageBatch resampling) and ~500 (entry, differentiable input) pairs: no value "
+            "path from a tensor argument or from a transformation's own state to the result passes a gradient blocker (detach, .data, "
+            "item/tolist/numpy, float()/int() of a tensor, torch.no_grad, requires_grad off, rounding to decimals), through any depth of "
+            "resolved repo callees and through buffers written by update(). 8 KNOWN findings (mi_loss histogram range). Does NOT decide "
+            "the behaviour itself: numerical agreement of autograd with finite differences, finiteness of gradients, kinks, or blockers "
+            "inside torch; piecewise-constant operations (round to integer, floor, argmax, comparisons) are by definition not findings.",
+            "DESIGN.md 4/C20"),
 }
 
 NOT_BUILT_REASON = "static check for this property is designed (DESIGN.md section 4) but not yet built in this revision"
@@ -254,6 +267,12 @@ def main():
             {"name": "E5 ring normal form + table-arm abstract evaluator", "path": "sa/ring.py sa/symt.py sa/tae.py sa/tables/",
              "serves_properties": [c["property_id"] for c in checks if "E5" in c["engine"]],
              "kind_free_text": "abstract interpretation of closed-form table code over exact polynomial/rational-function normal forms; concrete control flow; no solver"},
+            {"name": "E1 may-alias / in-place effect analysis", "path": "sa/effects.py sa/torch_model.py", "serves_properties": ["C15"],
+             "kind_free_text": "flow-sensitive origin tracking with summaries over resolved callees"},
+            {"name": "E8 gradient-flow taint analysis", "path": "sa/gradflow.py", "serves_properties": ["C20"],
+             "kind_free_text": "interprocedural value-dependence analysis with blocker table, flag specialisation and class buffer state"},
+            {"name": "format / library specification models", "path": "sa/iomodel.py sa/modmodel.py", "serves_properties": ["C18", "C06", "C07", "C09"],
+             "kind_free_text": "host models of numpy, io/zlib, SimpleITK, nibabel, MetaIO/NIfTI conventions and torch.nn.Module semantics"},
             {"name": "E7 sibling/pair/forward rules", "path": "sa/siblings.py", "serves_properties": [c["property_id"] for c in checks if "E7" in c["engine"]],
              "kind_free_text": "agreement rules between sibling call sites and wrappers"},
         ],
